@@ -233,8 +233,17 @@ func c19SessionSweep() []c19Session {
 			for j, v := range all {
 				sv[j] = fmt.Sprintf("(list '%s (slot-value i '%s) (send i :%s))", v, v, v)
 			}
-			d.Probes = []string{fmt.Sprintf("(let ((i (make-instance 'zqs-%s))) (list %s))", fd.Name, strings.Join(sv, " "))}
+			if fd.Classic {
+				d.Probes = []string{fmt.Sprintf("(let ((i (make-instance 'zqs-%s))) (list %s))", fd.Name, strings.Join(sv, " "))}
+			} else {
+				d.Probes = c19FlavProbes("zqs-"+fd.Name, all)
+			}
 			defs = append(defs, d)
+		}
+		// of the 125 combinations of the three options (all of them are leg A3 cells) the sessions
+		// take those without :inittable and those with :inittable alone
+		if strings.HasPrefix(w.Cell, "options/") && !strings.HasSuffix(w.Cell, "/init-none") && !strings.HasPrefix(w.Cell, "options/get-none/set-none/") {
+			continue
 		}
 		add("defflavor/world-"+w.Cell, defs...)
 	}
@@ -617,8 +626,48 @@ func (g *c19SessGen) addDef() {
 			}
 		}
 		g.fvars[name] = all
-		d.Forms = []string{fmt.Sprintf("(defflavor %s (%s) (%s) :gettable-instance-variables :settable-instance-variables :inittable-instance-variables)", name, ivs, strings.Join(comps, " "))}
-		d.Probes = []string{fmt.Sprintf("(let ((i (make-instance '%s))) (send i :%s))", name, iv), fmt.Sprintf("(let ((i (make-instance '%s :%s 77))) (send i :set-%s (+ 1 (send i :%s))) (send i :%s))", name, iv, iv, iv, iv)}
+		opts := " :gettable-instance-variables :settable-instance-variables :inittable-instance-variables"
+		if !g.listed("defflavor/world-options/get-bare/set-a/init-none") && r.Chance(60) {
+			// which operations and init keywords the restored flavor has: each option absent, bare,
+			// every own variable listed, or some of the variables (own, or own and inherited);
+			// the variable of the method body stays gettable
+			own := all[:1]
+			for _, v := range all[1:] {
+				if strings.Contains(ivs, " "+v) || strings.Contains(ivs, "("+v+" ") {
+					own = append(own, v)
+				}
+			}
+			pick := func(must string) c19FlavSel {
+				var sel c19FlavSel
+				switch k := r.Intn(100); {
+				case k < 20:
+				case k < 45:
+					return c19FlavSel{"*"}
+				case k < 60:
+					return append(c19FlavSel{}, own...)
+				default:
+					pool := own
+					if r.Chance(40) && !g.listed("defflavor/world-options-inherit/parent-none/child-lists-inherited") {
+						pool = all
+					}
+					for _, v := range pool {
+						if v != must && r.Chance(50) {
+							sel = append(sel, v)
+						}
+					}
+					if len(sel) == 0 && must == "" {
+						sel = c19FlavSel{pool[r.Intn(len(pool))]}
+					}
+				}
+				if must != "" {
+					sel = append(c19FlavSel{must}, sel...)
+				}
+				return sel
+			}
+			opts = pick(iv).option(":gettable-instance-variables") + pick("").option(":settable-instance-variables") + pick("").option(":inittable-instance-variables")
+		}
+		d.Forms = []string{fmt.Sprintf("(defflavor %s (%s) (%s)%s)", name, ivs, strings.Join(comps, " "), opts)}
+		d.Probes = append([]string{fmt.Sprintf("(let ((i (make-instance '%s))) (send i :%s))", name, iv)}, c19FlavProbes(name, all)...)
 		// behaviour of the restored flavor: the value of EVERY instance variable of a fresh instance
 		sv := make([]string, len(all))
 		for i, v := range all {
@@ -687,6 +736,22 @@ func (g *c19SessGen) addDef() {
 		g.pkgs = append(g.pkgs, name)
 		g.defs = append(g.defs, d)
 	}
+}
+
+// c19FlavProbes: what a flavor offers to its users — the operations an instance handles and, for
+// every variable, its value, whether :v / :set-v are handled and work, and whether make-instance
+// accepts it (one probe each: a refusal is an observation, not the end of the comparison).
+func c19FlavProbes(name string, vars []string) []string {
+	out := []string{fmt.Sprintf("(send (make-instance '%s) :which-operations)", name)}
+	for _, v := range vars {
+		out = append(out,
+			fmt.Sprintf("(slot-value (make-instance '%s) '%s)", name, v),
+			fmt.Sprintf("(let ((i (make-instance '%s))) (list (send i :operation-handled-p :%s) (send i :operation-handled-p :set-%s)))", name, v, v),
+			fmt.Sprintf("(send (make-instance '%s) :%s)", name, v),
+			fmt.Sprintf("(let ((i (make-instance '%s))) (send i :set-%s 78) (slot-value i '%s))", name, v, v),
+			fmt.Sprintf("(slot-value (make-instance '%s :%s 77) '%s)", name, v, v))
+	}
+	return out
 }
 
 // addClass: a class with initforms of several kinds, possibly a superclass defined earlier (the name
